@@ -299,7 +299,7 @@ var repairs = []repair{
 	}},
 	{name: "default-number-form", ast: func(a *hSchema) {
 		eachDefault(a, func(c *hCol) {
-			if c.Default == "1e3" || c.Default == "+5" || c.Default == "1.50" || c.Default == "007" {
+			if c.Default == "1e3" || c.Default == "+5" || c.Default == "1.50" || c.Default == "007" || c.Default == "0.0" {
 				c.Default = "7"
 			}
 		})
